@@ -178,9 +178,12 @@ def gen_optspec(cs, lab):
             pool = [INTS[(q * 3) % len(INTS)] if q % 2 == 0
                     else STRS[(q * 3) % len(STRS)] for q in range(10)]
         elif kind == "intfloat":
-            pool = [1, 2.5, 3, 0.5, 7, -1.5, 10, 21, 0, 100]
+            # ... among them numbers whose text is a pattern matching another
+            # one (2.5 / 215, 0.5 / 105) or holds a '+' (1e+20)
+            pool = [1, 2.5, 3, 0.5, 7, -1.5, 10, 21, 0, 100, 215, 1e20, 105]
         elif kind == "floats":
-            pool = [0.0, 0.5, 1.0, 2.5, -1.5, 10.0, 0.25, 3.0, 100.0, -2.0]
+            pool = [0.0, 0.5, 1.0, 2.5, -1.5, 10.0, 0.25, 3.0, 100.0, -2.0,
+                    1e20, 205.0, 2e-07]
         elif kind == "bools":
             pool = [True, False] * 5
         else:
